@@ -593,7 +593,7 @@ fn main() {
         finish(&cli, rep, t0);
     }
     rep.oblige("source_fed_again_after_converter_reported_exhaustion", 1);
-    live_exhaustion(&mut rep, cli.seed, cli.t(2_000, 200_000));
+    live_exhaustion(&mut rep, cli.seed, cli.t(2_000, 1_000_000));
     rep.oblige("output_pulled_three_or_more_frames", 1);
     rep.oblige("integer_positions_crossed_with_non_dyadic_ratio", 1000);
     rep.oblige("exhaustion_with_R_0", 1);
@@ -642,7 +642,7 @@ fn main() {
     rep.exhaustive(format!("{} constant ratios (16 dyadic, 9 non-dyadic) x source lengths 0..={} (every length thorough, 1/3 quick) + infinite x {{floor, linear}} x 6 frame types x 4 constructors", consts.len(), max_len));
 
     // ---- varying ratios: setters and mul_hz
-    let n_var = cli.t(300u64, 300_000u64);
+    let n_var = cli.t(300u64, 2_000_000u64);
     let reps = vmon::par_for(cli.threads, n_var, 4, |_| Report::new("C08", "w"), |rep, i| {
         let mut rng = Rng::derive(cli.seed, &[88, i]);
         let which = rng.usize_below(5);
